@@ -9,43 +9,66 @@ def nontrivial(req, obs):
     return bool(re.search(r"_\d+( |$)", obs)) or obs.count("=") >= 4
 
 
+def root_cause(mech):
+    """the defect site a mechanical key belongs to (None = not attributable to a listed site)"""
+    f = mech.split(":")
+    if f[0] == "reserved-namespace-decl":
+        return "namespace-decl-prints-source-name"
+    if f[0] in ("tie", "inconsistent") and f[-1] == "N":
+        return "namespace-decl-prints-source-name"
+    if f[0] == "reserved-unrenamed":
+        return "enum-value-or-member-not-in-namemap"
+    if f[0] == "verbatim" and f[1] == "generated-clash":
+        return "generated-name-takes-a-user-name"
+    if f[0] == "dup" and len(f) == 3:
+        t, kinds = f[1], set(f[2])
+        if kinds & set("MV"):
+            return "enum-value-or-member-not-in-namemap"
+        if "N" in kinds:
+            return "namespace-decl-prints-source-name"
+        if "L" in kinds:
+            return "locals-not-kept-apart-from-globals"
+        if t == "m" and kinds == {"G"}:
+            return "msl-threaded-globals-share-leaf-name"
+        return None
+    if f[0] == "capture" and len(f) == 4:
+        t, exp, got = f[1], f[2], f[3]
+        kinds = set(got.replace("q", ""))
+        if kinds & set("MV"):
+            return "enum-value-or-member-not-in-namemap"
+        if "L" in kinds or exp == "L":
+            return "locals-not-kept-apart-from-globals"
+        if t == "m" and kinds == {"G"} and exp == "G" and "q" not in got:
+            return "msl-threaded-globals-share-leaf-name"
+        # only namespace-level entities are involved: the relative qualified path that is printed resolves
+        # differently at the use site (or through a namespace declared under its source name)
+        return "relative-path-resolves-elsewhere"
+    return None
+
+
 def finding_key(req, obs, detail):
-    """Root-cause key of an oracle failure.  The harness prints `FAIL:<mechanical key> | <text>`; mechanical keys
-    that are consequences of one defect site are folded into that site (see notes/C15.md for the sites)."""
+    """Key of an oracle failure = <defect site>/<mechanical key>.  The mechanical key is printed by the harness
+    (`FAIL:<mechanical key> | <text>`) and names the target, the check that failed and the kinds of the entities
+    involved: `capture:<t>:<kind of the entity meant>:by-<local|enum-value-or-member|namespace-level-entity|nothing>`, `dup:<t>:<kind pair>`,
+    `reserved-unrenamed:<t>:<kind>`, `verbatim:generated-clash:<global|local>:<kind>`, `tie|inconsistent:<t>:<kind>`.
+    A failure is known only if this exact pair is listed; the site prefix is there for the reader."""
     d = detail[5:] if detail.startswith("FAIL:") else detail
     m = re.match(r"panic ([^:]+):\d+: (.*)$", d)
     if m:
         return "panic %s: %s" % (m.group(1), re.sub(r"\d+", "N", m.group(2)))
     mech = d.split(" | ")[0]
-    f = mech.split(":")
-    if f[0] in ("reserved-namespace-decl",):
-        return "namespace-decl-prints-source-name:" + f[1]
-    if f[0] in ("tie", "inconsistent") and f[-1] == "N":
-        return "namespace-decl-prints-source-name:" + f[1]
-    if f[0] == "dup" and len(f) == 3:
-        t, kinds = f[1], set(f[2])
-        if kinds & set("MV"):
-            return "enum-value-or-member-not-in-namemap:" + t
-        if "N" in kinds:
-            return "namespace-decl-prints-source-name:" + t
-        if "L" in kinds:
-            return "locals-not-kept-apart-from-globals:" + t
-        if t == "m" and kinds == {"G"}:
-            return "msl-threaded-globals-share-leaf-name"
+    root = root_cause(mech)
+    if root is None:
         return mech
+    f = mech.split(":")
     if f[0] == "capture" and len(f) == 4:
-        t, exp, got = f[1], f[2], f[3]
-        kinds = set(got.replace("q", "")) | {exp}
-        if kinds & set("MV"):
-            return "enum-value-or-member-not-in-namemap:" + t
-        if "L" in kinds:
-            return "locals-not-kept-apart-from-globals:" + t
-        if t == "m" and kinds == {"G"} and "q" not in got:
-            return "msl-threaded-globals-share-leaf-name"
-        # only namespace-level entities are involved: the relative qualified path that is printed resolves
-        # differently at the use site (or through a namespace declared under its source name)
-        return "relative-path-resolves-elsewhere:" + t
-    return mech
+        # the set of kinds found is summarised by what captured the name (exact sets have a long random tail)
+        got = f[3]
+        kinds = set(got.replace("q", ""))
+        by = ("enum-value-or-member" if kinds & set("MV") else "local" if "L" in kinds else
+              "nothing" if not kinds else "namespace-level-entity")
+        mech = "capture:%s:%s:by-%s" % (f[1], f[2], by)
+    return root + "/" + mech
 
 
 def shrink(req):
@@ -88,10 +111,9 @@ def shrink(req):
 SPEC = {
     "id": "C15",
     "gens": ["Reserved"],
-    "lean_modules": ["RsslVerif.Thm.C15"],  # imports Lemmas.Names, Lemmas.NamesTables (decide facts, cached)
+    "lean_modules": ["RsslVerif.Thm.C15"],  # imports Lemmas.Names, Lemmas.NamesOrder, Lemmas.NamesTables (decide facts, cached)
     "theorems": [T + n for n in [
-        "source_fingerprints", "reserved_complete_partial", "not_listed_exact", "reserved_incomplete_hlsl",
-        "reserved_incomplete_msl", "never_reserved", "injective_per_scope", "verbatim_partial",
+        "source_fingerprints", "reserved_complete", "build_scope_order_independent", "never_reserved", "injective_per_scope", "verbatim_partial",
         "renaming_equivariant_partial", "scope_loop_terminates", "verbatim_unconditional_false",
         "local_may_capture_global"]],
     "harness": "c15",
